@@ -59,12 +59,13 @@ THEOREMS = [
     "halley_accuracy_on_normals_partial", "trs2llh_axially_symmetric",
     "check_trs2llh_sound", "check_llh2trs_sound", "geo_cert_tolerance",
     "ellipsoid_preserved", "forwarding_table_all_true", "ellipsoid_preserved_today", "every_site_modelled",
-    "forwarding_ops_preserve", "check_flow_sound", "c05_ellipsoid_dropped_refuted",
+    "forwarding_ops_preserve", "check_flow_sound", "check_same_sound", "c05_ellipsoid_dropped_refuted",
 ]
 
-REQ = "From Verif Require Import Lib.Dyadic Model.C05_Geodetic Model.C05_Flow."
+REQ = "From Verif Require Import Lib.Dyadic Model.C05_Geodetic Model.C05_Flow Model.C05_Dtype."
 ELLS = ["sphere", "WGS72", "GRS80", "WGS84", "IERS2003", "IERS2010", "DORIS"]     # order of Model.published_ellipsoids
 QUIRK = "c05_ellipsoid_dropped"
+QUIRK_DTYPE = "c05_narrow_dtype_arithmetic"
 
 
 # ----------------------------------------------------------------------------- helpers
@@ -192,6 +193,39 @@ def shapes_of(rng, pts):
             out.append((s, np.array(pts[i:i + n], dtype=float)))
             i += n
     return out
+
+
+# ----------------------------------------------------------------------------- other dtypes / containers
+VARIANTS = ["int64", "int32", "list", "tuple_rows", "float32"]
+NARROW = ("int32", "float32")        # numpy computes in these types when given them (quirk c05_narrow_dtype_arithmetic)
+
+
+def as_variant(vals64, variant, shape):
+    """vals64: (n,3) float64 array whose values are exactly representable in the variant; returns the container"""
+    a = vals64[0] if shape == "1d" else vals64
+    if variant == "int64":
+        return np.array(a, dtype=np.int64)
+    if variant == "int32":
+        return np.array(a, dtype=np.int32)
+    if variant == "float32":
+        return np.array(a, dtype=np.float32)
+    if variant == "list":
+        conv = (lambda v: int(v)) if np.all(vals64 == np.round(vals64)) else float
+        return [conv(v) for v in a] if shape == "1d" else [[conv(v) for v in r] for r in a]
+    if variant == "tuple_rows":
+        conv = (lambda v: int(v)) if np.all(vals64 == np.round(vals64)) else float
+        return tuple(conv(v) for v in a) if shape == "1d" else [tuple(conv(v) for v in r) for r in a]
+    raise ValueError(variant)
+
+
+def call_raw(direction, container, ell):
+    """the raw function on the container as it is (no conversion by the driver)"""
+    from midgard.math import transformation as T
+    clear_caches()
+    f = T.trs2llh if direction == "trs2llh" else T.llh2trs
+    with np.errstate(all="ignore"):
+        res = f(copy.deepcopy(container), ell)
+        return np.array(np.asarray(res), dtype=float, copy=True), str(np.asarray(res).dtype)
 
 
 # ----------------------------------------------------------------------------- calling the implementation
@@ -654,6 +688,66 @@ def run(ctx):
                 metaRL.append(dict(rep, kind="roundtrip llh->trs->llh"))
                 ctx.case(("L", i, tuple(hexs(l))), nontrivial=True)
 
+    # ---- 4b. the raw functions on other dtypes / containers: whole-metre coordinates as int64 / int32 arrays, nested Python
+    #          lists / tuples, float32 arrays; llh as lists of Python floats, integer and float32 arrays.  The values are
+    #          exactly representable in the container, so the oracle is the float64 model value and the float64 run
+    n_dt = 90 if ctx.quick() else 900
+    casesEq, metaEq = [], []
+    combos = [(d_, v_, s_) for d_ in ("trs2llh", "llh2trs") for v_ in VARIANTS for s_ in ("1d", "1x3", "nx3")]
+    for k_dt in range(n_dt):
+        i = rng.randrange(len(ELLS))
+        ell = E.get(ELLS[i])
+        direction, variant, shape = combos[k_dt % len(combos)]      # every (direction, container, shape) in every run
+        n = 1 if shape != "nx3" else rng.choice([2, 3, 7])
+        if direction == "trs2llh":
+            pts = []
+            while len(pts) < n:
+                _, p = gen_trs_point(rng, ell)
+                step = 8.0 if variant == "float32" else 1.0          # multiples of 8 below 2^27 are float32 numbers
+                q = [round(v / step) * step + 0.0 for v in p]
+                if abs(q[0]) + abs(q[1]) >= 2.0:                       # stay off the (rounded-away) near-axis cases
+                    pts.append(q)
+            vals = np.array(pts, dtype=float)
+        else:
+            pts = []
+            for _k in range(n):
+                _, l = gen_llh_point(rng)
+                if variant in ("int64", "int32"):
+                    l = [float(rng.randrange(-1, 2)), float(rng.randrange(-3, 4)), float(round(l[2]))]
+                elif variant == "float32":
+                    l = [float(np.float32(v)) for v in l]
+                pts.append(l)
+            vals = np.array(pts, dtype=float)
+        cont = as_variant(vals, variant, shape)
+        ref_in = vals[0].copy() if shape == "1d" else vals.copy()
+        try:
+            out, out_dtype = call_raw(direction, cont, ell)
+            ref, _ = call_raw(direction, ref_in, ell)
+        except Exception as ex:
+            structural.append(dict(kind="exception", direction=direction, api=f"function[{variant}]", ellipsoid=ELLS[i],
+                                   input=vals.tolist(), error=f"{type(ex).__name__}: {ex}"))
+            continue
+        if out.shape != ref_in.shape:
+            structural.append(dict(kind="shape", direction=direction, api=f"function[{variant}]", ellipsoid=ELLS[i],
+                                   input=vals.tolist(), input_shape=list(ref_in.shape), output_shape=list(out.shape)))
+            continue
+        ctx.count(f"dtype:{direction}:{variant}:{shape}")
+        for v_in, v_out, v_ref in zip(rows(vals), rows(out), rows(ref)):
+            rep = dict(kind=f"{direction}[{variant}]", direction=direction, variant=variant, shape=shape, ellipsoid=ELLS[i],
+                       input=fl(v_in), input_hex=hexs(v_in), output=fl(v_out), output_hex=hexs(v_out), output_dtype=out_dtype,
+                       float64_run=fl(v_ref), float64_run_hex=hexs(v_ref),
+                       how=f"transformation.{direction}(<the input values as {variant}, shape {shape}>, ellipsoid.get(E)) "
+                           f"vs the same call on np.array(values, dtype=float)")
+            if direction == "trs2llh":
+                casesT.append(emit.pair(emit.nat(i), dys(v_in), dys(v_out)))
+                metaT.append(rep)
+            else:
+                casesL.append(emit.pair(emit.nat(i), dys(v_in), dys(v_out)))
+                metaL.append(rep)
+            casesEq.append(emit.pair(dys(v_out), dys(v_ref)))
+            metaEq.append(dict(rep, kind=f"{direction}[{variant}] == float64 run"))
+            ctx.case(("D", direction, variant, shape, i, tuple(hexs(v_in))), nontrivial=True)
+
     # ---- 5. objects: Position(xyz, 'trs', ellipsoid=E).llh.trs and random histories
     from midgard.data import position as P
     n_obj = 60 if ctx.quick() else 600
@@ -711,10 +805,10 @@ def run(ctx):
     size = 40
     groups = [("check_params", casesP, metaP), ("check_trs2llh", casesT, metaT), ("check_llh2trs", casesL, metaL),
               ("check_rt_trs", casesRT, metaRT), ("check_rt_llh", casesRL, metaRL), ("check_obj_rt", casesO, metaO),
-              ("check_flow", casesF, metaF), ("check_sites", casesS, metaS)]
+              ("check_flow", casesF, metaF), ("check_sites", casesS, metaS), ("check_same", casesEq, metaEq)]
     shards, owner = [], []
     for fn, cases, meta in groups:
-        sh = emit.shard_terms(fn, cases, 400 if fn in ("check_rt_trs", "check_flow", "check_params", "check_sites") else size)
+        sh = emit.shard_terms(fn, cases, 400 if fn in ("check_rt_trs", "check_flow", "check_params", "check_sites", "check_same") else size)
         shards += sh
         owner += [fn] * len(sh)
     ctx.log(f"{sum(len(g[1]) for g in groups)} cases in {len(shards)} shards")
@@ -730,7 +824,8 @@ def run(ctx):
              13: "height / coordinate differs from the exact-arithmetic result by more than 1e-8 m + 4 ulp",
              14: "geometric certificate fails: the point at distance h on the normal through (lat, lon) misses the input by more than 1e-6 m (h <= 100 km) / 2 mm",
              15: "malformed or non-finite result", 16: "round trip does not reproduce the input within 1e-6 m (h <= 100 km) / 2 mm",
-             17: "derived ellipsoid parameter differs from its definition", 1: "ellipsoid tags differ from the specification and from the model",
+             17: "derived ellipsoid parameter differs from its definition",
+             18: "result differs from the float64 run on the same values", 1: "ellipsoid tags differ from the specification and from the model",
              2: "the object lost its ellipsoid (fell back to the default)"}
     for fn, cases, meta in groups:
         flat = verdicts[fn]
@@ -757,6 +852,10 @@ def run(ctx):
                     ctx.finding(QUIRK, names[2], rep)
                 else:
                     ctx.violation(rep, what=f".ellipsoid changed along an operation history ({', '.join(sorted(culprit)) or 'no dropping site in the table explains it'})")
+            elif rep.get("variant") in NARROW and fn in ("check_trs2llh", "check_llh2trs", "check_same"):
+                ctx.count(f"quirk:narrow_dtype:{rep['variant']}")
+                ctx.finding(QUIRK_DTYPE, "trs2llh / llh2trs compute in the dtype of the input array (int32 overflows, float32 "
+                                         "loses decimetres)", rep)
             elif fn == "check_sites":
                 ctx.violation(rep, what="harness/drivers/c05.py SITES differs from Model.C05_Flow.sites / kind_after", found=False)
             else:
